@@ -21,6 +21,9 @@ class Unfoldable(Exception):
     pass
 
 
+_SENTINELS: Dict[int, Any] = {}
+
+
 _BIN = {
     ast.Add: operator.add,
     ast.Sub: operator.sub,
@@ -149,7 +152,7 @@ class Folder:
                 return getattr(base, e.attr)
             if isinstance(base, dict) and e.attr in base:
                 return base[e.attr]
-            if isinstance(base, Abstract) and hasattr(base, e.attr) and not e.attr.startswith("__"):
+            if isinstance(base, Abstract) and (not e.attr.startswith("__") or e.attr == "__name__") and hasattr(base, e.attr):
                 return getattr(base, e.attr)
             if type(base).__name__ == "AObj":
                 from .absint import aobj_member
@@ -221,6 +224,8 @@ class Folder:
                 hi = self.fold(e.slice.upper) if e.slice.upper else None
                 return base[lo:hi]
             idx = self.fold(e.slice)
+            if isinstance(idx, Abstract) and hasattr(idx, "choose_index") and isinstance(base, (list, tuple)):
+                return base[idx.choose_index(len(base))]
             try:
                 return base[idx]
             except (KeyError, IndexError, TypeError) as ex:
@@ -295,17 +300,24 @@ class Folder:
             it = f.fold(g.iter)
             if isinstance(it, (dict,)):
                 it = list(it)
+            proto = isinstance(it, Abstract) and hasattr(it, "loop_begin")
             try:
-                items = list(it)
+                items = it.loop_items() if proto else list(it)
             except TypeError:
                 raise Unfoldable("not iterable: " + unparse(g.iter))
-            for v in items:
-                env2 = dict(env)
-                self._bind_target(g.target, v, env2)
-                f2 = Folder(env2, self.repo, self.mod, self.cls, self.hook)
-                f2.depth = self.depth
-                if all(f2.fold(c) for c in g.ifs):
-                    rec(i + 1, env2)
+            if proto:
+                it.loop_begin()
+            try:
+                for v in items:
+                    env2 = dict(env)
+                    self._bind_target(g.target, v, env2)
+                    f2 = Folder(env2, self.repo, self.mod, self.cls, self.hook)
+                    f2.depth = self.depth
+                    if all(f2.fold(c) for c in g.ifs):
+                        rec(i + 1, env2)
+            finally:
+                if proto:
+                    it.loop_end()
 
         rec(0, dict(self.env))
         if isinstance(e, ast.SetComp):
@@ -401,6 +413,11 @@ class Folder:
                     return list(r) if m != "get" else r
                 if isinstance(recv, str) and m in ("split", "rsplit", "startswith", "endswith", "count", "replace", "join", "isdigit", "isascii", "isdecimal"):
                     return getattr(recv, m)(*[self.fold(a) for a in args])
+                if (isinstance(recv, str) and m == "encode") or (isinstance(recv, (bytes, bytearray)) and m == "decode"):
+                    try:
+                        return getattr(recv, m)(*[self.fold(a) for a in args])
+                    except (UnicodeError, LookupError) as ex:
+                        raise Unfoldable("%s: %s" % (unparse(e), ex))
         if e.keywords and name not in ("int",):
             raise Unfoldable(unparse(e))
         if isinstance(e.func, ast.Attribute) and e.func.attr == "bit_length" and not args:
@@ -422,7 +439,38 @@ class Folder:
             return abs(self.fold(args[0]))
         if name == "len":
             v = self.fold(args[0])
+            if isinstance(v, Abstract) and hasattr(v, "abs_len"):
+                return v.abs_len()
             return len(v)
+        if name in ("typing.cast", "cast") and len(args) == 2:
+            return self.fold(args[1])
+        if name == "iter" and len(args) == 1:
+            v = self.fold(args[0])
+            return iter(list(v.keys()) if isinstance(v, dict) else list(v))
+        if name == "next" and len(args) in (1, 2):
+            it = self.fold(args[0])
+            try:
+                return next(it)
+            except StopIteration:
+                if len(args) == 2:
+                    return self.fold(args[1])
+                raise Unfoldable("next() of an exhausted iterator")
+            except TypeError:
+                raise Unfoldable(unparse(e))
+        if name == "object" and not args:
+            return _SENTINELS.setdefault(id(e), object())
+        if name == "hasattr" and len(args) == 2:
+            v = self.fold(args[0])
+            a = self.fold(args[1])
+            if isinstance(v, Abstract):
+                try:
+                    return hasattr(v, a)
+                except Unfoldable:
+                    return False
+            raise Unfoldable(unparse(e))
+        if name == "type" and len(args) == 1:
+            v = self.fold(args[0])
+            return Sym(__name__=getattr(v, "_kind_", type(v).__name__))
         if name in ("int", "bool"):
             v = self.fold(args[0])
             if name == "int":
@@ -503,7 +551,7 @@ class Folder:
         if name == "isinstance" and len(args) == 2:
             v = self.fold(args[0])
             kn = [dotted(k) for k in (args[1].elts if isinstance(args[1], ast.Tuple) else [args[1]])]
-            pyk = {"int": int, "bool": bool, "str": str, "float": float, "fractions.Fraction": Fraction, "Fraction": Fraction, "set": (set, frozenset), "frozenset": frozenset, "list": list, "tuple": tuple, "dict": dict}
+            pyk = {"bytes": bytes, "bytearray": bytearray, "int": int, "bool": bool, "str": str, "float": float, "fractions.Fraction": Fraction, "Fraction": Fraction, "set": (set, frozenset), "frozenset": frozenset, "list": list, "tuple": tuple, "dict": dict}
             if all(k in pyk for k in kn) and not isinstance(v, Sym):
                 return any(isinstance(v, pyk[k]) for k in kn)  # type: ignore
             if isinstance(v, Abstract) and isinstance(getattr(v, "_isa_", None), (set, frozenset)):
